@@ -19,11 +19,12 @@ KNOWN = [
      "the third-party branch-filter decoders (pybcj 1.0.8; seen with ARMT), driven directly and alone, mis-decode their own encoder's output when fed in pieces of 1-2 bytes. py7zr hands such "
      "pieces over only when the extraction chunk limit is 1 or 2 bytes (get_memory_limit() under an absurdly tight RLIMIT_DATA) and the decoder in front of the filter honours max_length "
      "(BZip2, LZMA1, and since the C20 repair also Deflate/ZStandard/Brotli). The classifier replays the feed sizes through pybcj alone. Not repairable inside py7zr (prebuilt wheel)."),
-    ("C01", "codec-library/pyppmd-small-max-length-crash",
-     "pyppmd 1.1.1's Ppmd7Decoder alone (no py7zr code, fresh process) dies with SIGSEGV when it is handed a packed stream of ~120 KB at once and then asked for 7 bytes per call "
-     "(thousands of decode(b'', 7) calls). py7zr does that only when the extraction chunk limit is a few bytes (get_memory_limit() under an absurdly tight RLIMIT). Found by the thorough "
-     "tier (seed 1: PPMd order 6 / 1 MiB, members of 66235+65537 bytes, chunk 7). The classifier re-encodes the members with pyppmd and replays that feed in a child process; only when "
-     "the child dies from a signal is the worker's crash filed under this key. Third-party native code."),
+    ("C01", "codec-library/pyppmd-decoder-crash",
+     "pyppmd 1.1.1's Ppmd7Decoder alone (no py7zr code, fresh process) dies with SIGSEGV on the output of its own encoder for some inputs whose data exceed what the model holds "
+     "(seen: order 6 / 1 MiB with members of 867+66235+65537+255 bytes; order 2 / 1 MiB behind the x86 filter with members of 31+40000+1550 bytes): the first decode() returns short with "
+     "eof=True, the next call crashes, whatever max_length is. py7zr therefore kills the interpreter when it reads back such an archive it wrote itself. Found by the thorough tier (seed 1) and "
+     "the quick sweep (seed 6). The classifier re-encodes the members with pyppmd (and pybcj) alone and replays the feed in a child process; only when the child dies from a signal is the "
+     "worker's crash filed under this key. Same family as codec-library/pyppmd-roundtrip. Third-party native code."),
     ("C01", "write-raises/RecursionError/mv",
      "third-party multivolumefile recurses once per volume crossed by a single write(): a 64-byte volume size with a 64 KiB member (py7zr hands whole I/O blocks to write()) exceeds "
      "Python's recursion limit. The volumes written before the error are discarded by the failing session. Not repairable inside py7zr without re-chunking every write for that library."),
